@@ -166,6 +166,12 @@ Section Closure.
       destruct acc; try apply P_raise. destruct b; try apply P_raise. apply IH.
     Qed.
 
+    Lemma P_cat_arrs : forall rest acc, P _ (cat_arrs acc rest).
+    Proof.
+      induction rest as [|b r IH]; simpl; intros acc; [apply P_ret|].
+      destruct b; try apply P_raise. apply P_bind; [P_lift|]. intros o. apply IH.
+    Qed.
+
     Lemma P_map_arr : forall f xs t, P _ (map_arr ap f xs t).
     Proof.
       induction xs as [|x r IH]; simpl; intros t; [apply P_ret|].
@@ -184,7 +190,7 @@ Section Closure.
       repeat first
         [ apply P_ret | apply P_raise | P_lift | apply P_arith | apply Hap | apply P_map_pairs
         | apply P_ap_values | apply P_force_cell | apply P_subst_cell
-        | apply P_bind; [first [P_lift | apply P_map_arr]|intros ?]
+        | apply P_bind; [first [P_lift | apply P_map_arr | apply P_cat_arrs]|intros ?]
         | match goal with |- P _ (match ?x with _ => _ end) => destruct x end
         | match goal with |- P _ (if ?x then _ else _) => destruct x end ].
 
